@@ -53,6 +53,45 @@ BUILT = {
             "indirect near/far forms over all registers and key address shapes",
             E1_NOTE + "; a displacement written as 0x80000000..0xffffffff is read modulo 2^32 (lenient)",
             "DESIGN.md section 6, C05"),
+    "C06": ("model_checking",
+            "exhaustive enumeration of programs (all ordered pairs of a ~200-line set, all triples of a core, all "
+            "k-line programs over a small core) x ALL 2^(k-1) call splits x start offsets x buffer fills, executed on the "
+            "real API and compared with the concatenation of single-line runs",
+            "relational (byte equality between runs of the implementation), immune to encoding defects; quick 82k / "
+            "thorough 1.3M histories",
+            "the single-line output of each line under the same options is the reference; lines that do not assemble "
+            "alone are dropped from the line set (listed in the evidence)", "DESIGN.md section 6, C06"),
+    "C07": ("model_checking",
+            "exhaustive call-history enumeration (depth <= 3 for every buffer length 0..32/48, depth 4 for selected "
+            "lengths) over the real API on guard-page buffers, one forked child per history, lockstep with a reference "
+            "model of the documented 20-byte reserve",
+            "every history over a 20-operation menu (offsets around n-20, chunk sizes, plain and counting assembles of "
+            "short/long/multi-line/rejected texts) is executed in two guard-page layouts; a write outside the buffer "
+            "faults or breaks a canary, return values and offsets must equal the model",
+            "guard pages, canaries and a before/after snapshot make out-of-range writes observable; asm_set_offset only "
+            "with 0<=k<=n", "DESIGN.md section 6, C07"),
+    "C13": ("model_checking",
+            "exhaustive enumeration of (chunk size, start position, instruction length) triples, short sequences and "
+            "on/off/resize switching histories on the real API (ASan build), lockstep with a placement model; padding "
+            "decoded by objdump",
+            "every (c, p, l) for c in 2..40,64,(4096), every length the library emits (1..14); sequences <= 3 over 7 "
+            "lengths; invariant 'no instruction shorter than c straddles' evaluated on the output itself",
+            "objdump decides what a NOP is; instruction lengths harvested from the current tree",
+            "DESIGN.md section 6, C13"),
+    "C14": ("model_checking",
+            "exhaustive enumeration of (chunk size, start, length) triples, sequences <= 3/4 and repeated-call histories "
+            "on the real counting API (ASan build), lockstep with a counting model",
+            "bytes must equal plain assembly and *dest the number of boundary-crossing instructions of this call only; "
+            "c < 2 gives 0",
+            "fitting never enabled (precondition of the statement)", "DESIGN.md section 6, C14"),
+    "C15": ("model_checking",
+            "exhaustive call-history enumeration (all histories of depth <= 3/4 over 16 operations x 12 probes) on the real "
+            "API (ASan build, one forked child per history) with a differential oracle: the same probe on a fresh "
+            "instance carrying only the user-visible settings",
+            "every history including failed calls, counting calls, second instances created/destroyed/used; the probe "
+            "after asm_set_offset must give the same return value, offset, bytes and count as on a fresh instance",
+            "user-visible settings = last value per option dimension + last asm_set_chunk_size",
+            "DESIGN.md section 6, C15"),
     "C12": ("model_checking",
             "explicit-state BFS over the real setter API to a fixpoint, lockstep with a documentation model; plus all "
             "setter sequences up to depth 3/4 and all two-instance interleavings up to depth 2/3, exhaustively",
